@@ -27,7 +27,9 @@ META = dict(
          "curves, Ed25519; with and without passphrase) are mutated at text level (bit flips, high bytes, "
          "deletions, truncations, splices from other key files, line and header edits, DEK-Info edits) and at "
          "binary level after base64-decoding (flips, deletions, insertions, length-field and OpenSSH field "
-         "edits, re-encoded) and loaded through from_private_key_file and from_private_key of all three key "
+         "edits, re-encoded; plus, exhaustively, EVERY truncation length of the decoded body of one unencrypted and one "
+         "encrypted OpenSSH-format file per key type (ECDSA-256/384/521, Ed25519, RSA) and ECDSA files carrying a "
+         "valid public point of another key) and loaded through from_private_key_file and from_private_key of all three key "
          "classes with no, the right and a wrong passphrase. Any exception other than SSHException (which "
          "includes PasswordRequiredException) is a violation named by exception type and raising function; a "
          "load that succeeds must give a key that signs and whose signature verifies under its own public "
@@ -566,6 +568,113 @@ def pick_password(rng, seed):
     return "wrong", rng.choice([seed.password + "x", "wrong", b"\xff\xfe", ""])
 
 
+# --------------------------------------------------------------------------
+# exhaustive part: every truncation length of the decoded body of OpenSSH-format files
+# --------------------------------------------------------------------------
+def enumeration_keys(ctx):
+    """(label, text bytes, class name, password) of OpenSSH-format files whose body is truncated at EVERY length.
+    ECDSA and Ed25519 keys are derived from the seed only (identical in all shards, lengths partitioned with
+    ctx.mine); RSA: the bundled unencrypted OpenSSH file (same partition) and one fresh 1024-bit key per shard."""
+    import random
+
+    r0 = random.Random(ctx.seed * 7919 + 37)
+    out = []
+    for kind in ("ecdsa256", "ecdsa384", "ecdsa521", "ed25519"):
+        priv = ko.gen_private(kind, r0)
+        clsname = ko.key_class(kind).__name__
+        out.append(("enum:%s:plain" % kind, ko.serialize_private(priv, "openssh"), clsname, None, True))
+        # the encrypted form goes through the same un-padding step after decryption (bcrypt guard memoises)
+        # NB: cryptography draws salt and check-ints at random, so the ciphertext differs per shard; lengths do not
+        out.append(("enum:%s:enc" % kind, ko.serialize_private(priv, "openssh", b"enum-pw", rounds=1), clsname, "enum-pw", True))
+    with open(ko.bundled_path("test_rsa_openssh_nopad.key"), "rb") as f:
+        out.append(("enum:bundled:test_rsa_openssh_nopad.key", f.read(), "RSAKey", None, True))
+    out.append(("enum:rsa1024:plain(per-shard key)", ko.serialize_private(ko.gen_private("rsa1024"), "openssh"),
+                "RSAKey", None, True))
+    return out
+
+
+def enumerate_body_truncations(ctx, tmpdir):
+    for label, text, clsname, pw, partition in enumeration_keys(ctx):
+        sp = split_pem(text)
+        if sp is None:
+            ctx.inconclusive("enumeration key %s is not PEM-armoured" % label)
+            continue
+        head, body, tail, width = sp
+        fields = parse_openssh(body)
+        priv_start = next((s for nm, s, e in fields if nm == "private"), None) if fields else None
+        ctx.count("enum_keys")
+        ctx.note("enum_body_length_" + label.split(":")[1] + ("_enc" if label.endswith(":enc") else ""), len(body))
+        others = [c for c in CLASSES if c != clsname]
+        for n in range(len(body) + 1):
+            if not ctx.mine(n):
+                continue
+            data = join_pem(head, body[:n], tail, width)
+            loader = "file" if (n // ctx.nshards) % 2 == 0 else "fileobj"
+            inside_private = priv_start is not None and n >= priv_start
+            targets = [clsname]
+            if pw is None:
+                targets.append(others[(n // ctx.nshards) % 2])  # the shared reader is reached from any class
+            for cn in targets:
+                desc = dict(seed=label, mutation="body-truncated-to-%d-of-%d" % (n, len(body)), key_class=cn,
+                            loader=loader, passphrase="right" if pw else "none", password=repr(pw))
+                ctx.case((label.split(":")[1], "enum-trunc", n, cn, loader, label.endswith(":enc")), nontrivial=n != len(body),
+                         sample=dict(desc, file_text=data.decode("latin-1")[:900])
+                         if priv_start is not None and n == priv_start + 8 + 4 + 19 + 4 and cn == clsname and pw is None else None)
+                r = load_case(ctx, tmpdir, data, cn, loader, pw, desc)
+                ctx.count("enum_body_truncations")
+                ctx.count("enum_outcome_" + r)
+                if inside_private:
+                    ctx.count("enum_truncations_inside_private_section")
+                if cn == clsname:
+                    ctx.count("enum_truncations_" + clsname)
+
+
+def foreign_point_cases(ctx, tmpdir, seeds):
+    """OpenSSH-format ECDSA files whose stored public point (private section and/or public section) is a valid
+    point of ANOTHER key on the same curve. Correct code may accept the file (it derives the public key from the
+    scalar) or refuse it; what it may not do is hand out a key whose halves disagree."""
+    rng = ctx.rng
+    for seed in seeds:
+        if seed.clsname != "ECDSAKey" or b"OPENSSH" not in seed.data[:40]:
+            continue
+        sp = split_pem(seed.data)
+        fields = parse_openssh(sp[1]) if sp else None
+        if not fields:
+            continue
+        f = {nm: (s, e) for nm, s, e in fields}
+        if sp[1][f["cipher"][0]:f["cipher"][1]] != b"none":
+            continue
+        head, body, tail, width = sp
+        s, e = f["private"]
+        priv = body[s:e]
+        flds, _ = inner_fields(priv)  # keytype, curve, point, scalar, comment
+        if len(flds) < 4:
+            continue
+        point = priv[flds[2][0]:flds[2][1]]
+        bits = {65: 256, 97: 384, 133: 521}.get(len(point))
+        if bits is None:
+            continue
+        for variant in ("inner", "outer", "both"):
+            other = ko.gen_private("ecdsa%d" % bits, rng).public_key()
+            from cryptography.hazmat.primitives import serialization as ser
+            opoint = other.public_bytes(ser.Encoding.X962, ser.PublicFormat.UncompressedPoint)
+            bb = body
+            if variant in ("inner", "both"):
+                bb = set_string(bb, s, e, set_string(priv, flds[2][0], flds[2][1], opoint))
+            if variant in ("outer", "both"):
+                bb = bb.replace(point, opoint, 1) if variant == "outer" else bb.replace(point, opoint)
+            data = join_pem(head, bb, tail, width)
+            for loader in ("file", "fileobj"):
+                desc = dict(seed=seed.label, mutation="ec-foreign-point-" + variant, key_class="ECDSAKey", loader=loader,
+                            passphrase="none", password="None")
+                ctx.case((seed.label, "ec-foreign-point", variant, loader, opoint),
+                         sample=dict(desc, file_text=data.decode("latin-1")[:900]) if variant == "inner" and loader == "file"
+                         and ctx.shard == 1 and bits == 256 else None)
+                r = load_case(ctx, tmpdir, data, "ECDSAKey", loader, None, desc)
+                ctx.count("ec_foreign_point_cases")
+                ctx.count("ec_foreign_point_" + r)
+
+
 def run(ctx):
     if ctx.guard(ko.selfcheck) is None:
         return
@@ -594,6 +703,9 @@ def run(ctx):
                     ctx.count("unmutated_loads_" + r)
                     if r != "ok":
                         ctx.inconclusive("unmutated seed %s did not load (%s)" % (s.label, r))
+        # 1. exhaustive: every body truncation length of one OpenSSH-format key per type; foreign EC points
+        enumerate_body_truncations(ctx, tmpdir)
+        foreign_point_cases(ctx, tmpdir, seeds)
         n_cases = ctx.pick(2000, 12000)
         deadline = ctx.deadline(150, 420)
         sampled = {}
@@ -646,3 +758,10 @@ def run(ctx):
     ctx.require("mutation_binary", 1500)
     ctx.require("mutation_text", 1500)
     ctx.require("bcrypt_kdf_calls", 100)
+    # the enumeration is complete only if every shard ran: floors are the exact minimum body sizes
+    ctx.require("enum_body_truncations", 5000)
+    ctx.require("enum_truncations_inside_private_section", 2000)
+    ctx.require("enum_truncations_ECDSAKey", 1500)
+    ctx.require("enum_truncations_Ed25519Key", 400)
+    ctx.require("enum_truncations_RSAKey", 2000)
+    ctx.require("ec_foreign_point_cases", 50)
